@@ -18,8 +18,11 @@ C = SECP
 
 # ----------------------------------------------------------------------------- alphabet
 GEN_VARIANTS = [("ok", "A"), ("ok", "B"), ("nosk", "B"), ("rand0", "A"), ("rand0nosk", "A"), ("sk0", "A"), ("skn", "B"),
-                ("pk0", "A"), ("pnnull", "A"), ("badcache", "B"), ("reuse", "A")]
-CNT_VARIANTS = [("ok", "A"), ("ok", "B"), ("zerokp", "A")]
+                ("pk0", "A"), ("pnnull", "A"), ("badcache", "B"), ("reuse", "A"),
+                # the same refusals with the optional key-aggregation cache ABSENT, and a valid call without it
+                ("sk0nc", "A"), ("sknnc", "B"), ("oknc", "A"), ("rand0nc", "B")]
+# keypair objects whose secret half is 0 / n while the public half is valid (e.g. a secret erased in place): must be refused
+CNT_VARIANTS = [("ok", "A"), ("ok", "B"), ("zerokp", "A"), ("kpsec0", "A"), ("kpsecn", "B")]
 SIGN_VARIANTS = [("own", "ok"), ("other", "ok"), ("neg", "ok"), ("zero", "ok"), ("null", "ok"),
                  ("own", "outnull"), ("own", "cachenull"), ("own", "cachebad"), ("own", "sessnull"),
                  ("own", "sessbad"), ("own", "sessother")]
@@ -190,7 +193,7 @@ def do_gen(H, op, pos, st):
     pnobj = buf(SZ_PUBNONCE)
     if v == "reuse":
         rnd = H.rand if H.rand is not None else buf(W.secrand(pos))
-    elif v in ("rand0", "rand0nosk"):
+    elif v in ("rand0", "rand0nosk", "rand0nc"):
         rnd = buf(32)
     else:
         rnd = buf(W.secrand(pos))
@@ -198,18 +201,18 @@ def do_gen(H, op, pos, st):
     sk = b32(W.d[key])
     if v in ("nosk", "rand0nosk"):      # all-zero randomness must be refused whether or not a secret key is given
         sk = None
-    elif v == "sk0":
+    elif v in ("sk0", "sk0nc"):
         sk = b32(0)
-    elif v == "skn":
+    elif v in ("skn", "sknnc"):
         sk = b32(N)
     pk = W.pk_zero if v == "pk0" else W.pkobj[key]
-    cache = W.cache_bad if v == "badcache" else W.cache
+    cache = W.cache_bad if v == "badcache" else (None if v.endswith("nc") else W.cache)
     ret = L.musig_nonce_gen(L.ctx, sn, None if v == "pnnull" else pnobj, rnd, sk, pk, W.msg[0], cache, W.extra)
     ill, err = L.cb_take()
     st.calls += 1
     H.rand = rnd
     illegal_variant = v in ("pk0", "pnnull", "badcache")
-    plain_fail = v in ("sk0", "skn") or is_zero(rand_in)
+    plain_fail = v in ("sk0", "skn", "sk0nc", "sknnc") or is_zero(rand_in)
     if err:
         bad(st, H, "error callback fired in nonce_gen")
     if illegal_variant or plain_fail:
@@ -228,7 +231,7 @@ def do_gen(H, op, pos, st):
             st.count("gen-refused-zero-rand" if is_zero(rand_in) else "gen-refused-seckey")
         return (ret, ill > 0)
     # success expected
-    exp_sec, exp_pn = W.model_gen(rand_in, sk, key, True)
+    exp_sec, exp_pn = W.model_gen(rand_in, sk, key, not v.endswith("nc"))
     if ret != 1 or ill:
         bad(st, H, "valid nonce_gen(%s) returned %d with %d illegal callbacks" % (v, ret, ill))
         H.model[s] = None if is_zero(sn.raw) else H.model[s]
@@ -253,6 +256,10 @@ def do_cnt(H, op, pos, st):
     pnobj = buf(SZ_PUBNONCE)
     cnt = COUNTERS[pos]
     kp = W.kp_zero if v == "zerokp" else W.kp[key]
+    if v == "kpsec0":
+        kp = buf(b"\x00" * 32 + W.kp[key].raw[32:])
+    elif v == "kpsecn":
+        kp = buf(b32(N) + W.kp[key].raw[32:])
     ret = L.musig_nonce_gen_counter(L.ctx, sn, pnobj, c_uint64(cnt), kp, W.msg[0], None, W.extra)
     ill, err = L.cb_take()
     st.calls += 1
@@ -264,6 +271,14 @@ def do_cnt(H, op, pos, st):
         if ret != 0 or ill < 1:
             bad(st, H, "nonce_gen_counter(zeroed keypair) returned %d with %d callbacks" % (ret, ill))
         st.count("cnt-illegal")
+        return (ret, ill > 0)
+    if v in ("kpsec0", "kpsecn"):
+        # invalid secret key inside an otherwise valid keypair object: refused, and the secnonce is zeroed like on every failure
+        H.model[s] = None
+        H.zkind[s] = "Zf"
+        if ret != 0:
+            bad(st, H, "nonce_gen_counter(keypair with secret key %s) returned %d, must fail" % ("0" if v == "kpsec0" else "n", ret))
+        st.count("cnt-refused-seckey")
         return (ret, ill > 0)
     exp_sec, exp_pn = W.model_gen(M.counter_rand(cnt), b32(W.d[key]), key, False)
     if ret != 1 or ill:
